@@ -1234,18 +1234,17 @@ class FortranFile:
         )
         word_range = Range(-1, -1)
         if curr_line is not None:
-            find_word_lower = word.lower()
-            word_range = find_word_in_line(curr_line.lower(), find_word_lower)
+            word_range = find_word_in_line(curr_line, word)
         if backward and (word_range.start < 0):
             back_lines.reverse()
             for i, line in enumerate(back_lines):
-                word_range = find_word_in_line(line.lower(), find_word_lower)
+                word_range = find_word_in_line(line, word)
                 if word_range.start >= 0:
                     line_no -= i + 1
                     return line_no, word_range
         if forward and (word_range.start < 0):
             for i, line in enumerate(forward_lines):
-                word_range = find_word_in_line(line.lower(), find_word_lower)
+                word_range = find_word_in_line(line, word)
                 if word_range.start >= 0:
                     line_no += i + 1
                     return line_no, word_range
